@@ -2,13 +2,17 @@
    Only ExtrOcamlBasic: bool/option/unit/list/prod/sumbool/sumor are mapped to OCaml's own types,
    andb/orb are inlined; Z, positive, N, nat remain the extracted inductive types. *)
 Require Import Extraction ExtrOcamlBasic.
-Require Import Base Fp GenLeaf PlaModel IndexModel.
+Require Import Base Fp GenLeaf PlaModel PlaSpec IndexModel DynModel DynSpec DynExec.
 Extraction Language OCaml.
 Extraction "model.ml"
   Base.lb Base.ub Base.lb_range Base.ub_range Base.sortedb Base.ssortedb
   Fp.frepr64 Fp.frepr32 Fp.frepr80
   PlaModel.make_segmentation_par PlaModel.make_segmentation PlaModel.cseg_line PlaModel.add_point PlaModel.pla_init
-  PlaModel.get_segment
+  PlaModel.get_segment PlaModel.one_point
+  PlaSpec.band_lo PlaSpec.band_hi PlaSpec.line_ok_b PlaSpec.cert4_b PlaSpec.line_close_b PlaSpec.reported_line_close_b
   IndexModel.build IndexModel.search_tr IndexModel.search IndexModel.C01_pred_b IndexModel.C02_pred_b
   IndexModel.slope_to_floating IndexModel.segment_of_cseg
-  GenLeaf.par_threshold.
+  GenLeaf.par_threshold Base.kmin Base.kmax
+  DynExec.idx_ops DynModel.dyn_ctor DynModel.dyn_bulk DynModel.insert_or_assign DynModel.erase DynModel.dfind DynModel.count
+  DynModel.lower_bound DynModel.range DynModel.to_list_from DynModel.iter_of DynModel.dyn_begin DynModel.dyn_size DynModel.dyn_empty
+  DynSpec.am_insert DynSpec.am_erase DynSpec.am_find DynSpec.am_lower_bound DynSpec.am_from DynSpec.am_range DynSpec.am_bulk DynSpec.inv_b.
